@@ -590,6 +590,12 @@ theorem C03_index_above_range_raises (s : Sig) (c : Cfg) (i : Int)
       simp only [Bool.or_eq_true, decide_eq_true_eq]; right; exact hn
     rw [if_pos this]
 
+/-- Non-vacuity on `f(p=…, q=…, r=…)` (three slots): `cfg[-1]` is `cfg[2]`, `cfg[-4]` and `cfg[3]` raise,
+    `cfg[-4] = v` raises. -/
+example : ({} : Cfg).getItem sg3 (-1) = ({} : Cfg).getItem sg3 2 := by rfl
+example : ({} : Cfg).getItem sg3 (-4) = .error .indexError ∧ ({} : Cfg).getItem sg3 3 = .error .indexError ∧
+    ({} : Cfg).setItem sg3 (-4) (.v 1) = .error .indexError := ⟨by rfl, by rfl, by rfl⟩
+
 /-! ### Attribute edits behave like a dict restricted to the signature -/
 
 /-- A name is accepted by `setattr` exactly when it names a keyword-capable parameter, or the
